@@ -506,7 +506,7 @@ def example_case(draw, names):
 
 @st.composite
 def gen_case(draw, exhaustive=False):
-    prog = draw(G.program())
+    prog = draw(G.program(MAX_EXH + 1 if exhaustive else 8))
     nb = len(prog["sims"]) - 1
     if exhaustive:
         deliv = draw(st.lists(st.sampled_from(METHODS), min_size=5, max_size=5))
@@ -552,10 +552,14 @@ def run(ctx):
     names = example_names()
     if ctx.tier == "quick":
         names = [n for n in names if n not in EX_SLOW]
-    enumerate_examples(ctx, [n for n in names if ctx.tier != "quick" or n in QUICK_EXH])
-    ctx.hyp(example_case(names), lambda c: check_case(c, ctx), b["ex"], "examples")
-    ctx.hyp(gen_case(False), lambda c: check_case(c, ctx), b["gen"], "generated")
-    ctx.hyp(gen_case(True), lambda c: check_case(c, ctx), b["gen_all"], "generated_all_cuts")
+    legs = [lambda: enumerate_examples(ctx, [n for n in names if ctx.tier != "quick" or n in QUICK_EXH]),
+            lambda: ctx.hyp(example_case(names), lambda c: check_case(c, ctx), b["ex"], "examples"),
+            lambda: ctx.hyp(gen_case(False), lambda c: check_case(c, ctx), b["gen"], "generated"),
+            lambda: ctx.hyp(gen_case(True), lambda c: check_case(c, ctx), b["gen_all"], "generated_all_cuts")]
+    for leg in legs:
+        leg()
+        if ctx.failures:        # the verdict of this shard is known; do not spend the budget on shrinking more failures
+            break
 
 
 # examples whose whole cut-set space is enumerated in the quick tier as well (cheap ones)
